@@ -327,7 +327,10 @@ func wxRawFile(root *wSch) (*descriptorpb.FileDescriptorProto, error) {
 		fd.EnumType = append(fd.EnumType, &descriptorpb.EnumDescriptorProto{
 			Name: proto.String("Color"),
 			Value: []*descriptorpb.EnumValueDescriptorProto{
+				// hand-written protos need not declare values in number order (legal proto3): the numbers the value
+				// atoms use are 1 and 2, declared after a higher number
 				{Name: proto.String("COLOR_UNSPECIFIED"), Number: proto.Int32(0)},
+				{Name: proto.String("COLOR_LEGACY"), Number: proto.Int32(5)},
 				{Name: proto.String("COLOR_RED"), Number: proto.Int32(1)},
 				{Name: proto.String("COLOR_GREEN"), Number: proto.Int32(2)},
 			},
